@@ -42,6 +42,8 @@ class Prop(PropBase):
             for name in NAMES:
                 for _ in range(2):
                     rank = rng.choice([1, 2, 3]) if not name.endswith("2") else rng.choice([2, 3])
+                    if name.endswith("n"):
+                        rank = rng.choice([2, 3, 3])
                     yield {"op": "fft", "name": name, "rank": rank, "seed": rng.randrange(1 << 30),
                            "norm": rng.choice([None, None, "ortho", "forward"]), "use_n": rng.random() < 0.4,
                            "axis": rng.randrange(-rank, rank), "dask": rng.random() < 0.3,
@@ -85,6 +87,10 @@ class Prop(PropBase):
                     kw.pop("s")
             if not (rank == 3 and case["axis"] % 2 == 0):     # rank 3 with default axes separates fft2 from fftn
                 kw["axes"] = axes
+        elif name.endswith("n") and not case["dask"] and rank == 3 and case["seed"] % 2 == 0:
+            # lengths given for two axes, axes left out: the reference transforms the LAST len(s) axes
+            axes = (1, 2)
+            kw["s"] = (shape[1] + 1, shape[2] if name.startswith("i") or name.startswith("r") else shape[2] + 2)
         elif name.endswith("n"):
             axes = tuple(range(rank)) if rank < 3 else (0, 2)
             kw["axes"] = axes
@@ -94,7 +100,11 @@ class Prop(PropBase):
             kw["axis"] = case["axis"]
             if case["use_n"]:
                 kw["n"] = shape[case["axis"]] + 2
-        ref_np = getattr(np.fft, name)(np.asarray(x, dtype=np.complex128 if np.iscomplexobj(x) else np.float64), **kw)
+        import warnings
+        with warnings.catch_warnings():
+            warnings.simplefilter("ignore")
+            ref_np = getattr(np.fft, name)(np.asarray(x, dtype=np.complex128 if np.iscomplexobj(x) else np.float64),
+                                           **(dict(kw, axes=tuple(range(rank - len(kw["s"]), rank))) if "s" in kw and "axes" not in kw and multi else kw))
         ref_sp = getattr(scipy.fft, name)(x, **kw)
         if case["dask"]:
             tr = set(a % rank for a in (kw.get("axes") or ((kw["axis"],) if "axis" in kw else (-2, -1))))
